@@ -64,7 +64,9 @@ Terms(ws) == [j \in 1..Len(ws) |-> DecT(ws[j])]
 AllCommute(x) == \A i, j \in 1..Len(x) : ~Anti(x[i].p, x[j].p)
 \* coefficients are exact dyadics within the record's scale (inexact floats are recorded with exponent 99)
 WFT(ws) == \A j \in 1..Len(ws) : ws[j][4] \in 0..Rec.E
-SBRGWellFormedOK == (Rec.op = "sbrg" /\ Done) => WFT(Rec.h) /\ WFT(Rec.heff) /\ (Has("fwd") => WFT(Rec.fwd))
+\* (required only for commuting Hamiltonians, whose coefficients are merely carried along; the perturbative
+\* step for non-commuting terms divides by arbitrary leading coefficients and is outside the exact model)
+SBRGWellFormedOK == (Rec.op = "sbrg" /\ Done /\ Rec.commuting = TRUE) => WFT(Rec.h) /\ WFT(Rec.heff) /\ (Has("fwd") => WFT(Rec.fwd))
 SBRGDiagOK == (Rec.op = "sbrg" /\ Done) =>
     LET heff == Terms(Rec.heff) IN \A j \in 1..Len(heff) : \A q \in 1..NQ(heff[j].p) : heff[j].p.s[q] \in {0, 3}
 SBRGExactOK == (Rec.op = "sbrg" /\ Done /\ WFT(Rec.h) /\ WFT(Rec.heff) /\ (Has("fwd") => WFT(Rec.fwd))) =>
